@@ -68,6 +68,7 @@ func (d *detRand) Read(p []byte) (int, error) {
 
 func resetGlobals() {
 	mgmtFault = ""
+	mgmtMetaStorage = ""
 	logger.Log = nopLogger{}
 	uuid.SetRand(&detRand{})
 	prometheus.DefaultRegisterer = prometheus.NewRegistry()
@@ -186,6 +187,7 @@ type EnvOpts struct {
 	CheckpointInterval   time.Duration
 	CheckpointTimeout    time.Duration
 	ConnectionTimeout    time.Duration // dcp.connectionTimeout (0 = the documented default)
+	BucketType           string        // what the REST lookup reported: "" = couchbase (membase), "ephemeral"
 	RebalanceDelay       time.Duration
 	Version              *couchbase.Version
 	SkipUntil            *time.Time
@@ -395,6 +397,9 @@ func NewEnv(c *gocbcore.SimCluster, o EnvOpts) *Env {
 	}
 	e.CollIDs = ids
 	bucketType := "couchbase"
+	if o.BucketType != "" {
+		bucketType = o.BucketType
+	}
 	e.Stream = stream.NewStream(e.Client, e.Meta, e.Cfg, o.Version, &couchbase.BucketInfo{BucketType: bucketType},
 		e.VBD, e.Cons, ids, e.StopCh, e.EH, tracing.NewTracerComponent())
 	return e
